@@ -29,7 +29,7 @@ claimed = {
    note='Scheduling points at sync/atomic operations, channel operations, select statements and file-system calls of updog packages (rewritten at build time) and at the internal locks of bbolt; races in between are caught by the race detector, which sees only the program\'s own happens-before edges. gRPC-level concurrency is not enumerated.'),
  'C05': dict(level='exploration', engine=E1 + ' + ' + E2, ref='§4 C05',
    technique='bounded-exhaustive enumeration of AddRow sequences x 3 writer paths x 2 open modes against the model (ids, schema, universe, exact membership via a unique column) plus BFS over open/close/probe histories',
-   text='Every dataset of the small-scope product (with and without a unique id column) and of the batch-boundary families (0..2500/4097 rows, >1000 distinct values in one and two columns, exact multiples of the 1000-value batch, values on more than 4096 rows, several outputs of one writer) is written by all writer paths and probed completely; reopen histories over {open, open-preload, close, probe} are explored breadth-first on file copies.',
+   text='Every dataset of the small-scope product (with and without a unique id column) and of the batch-boundary families (0..2500/4097 rows, >1000 distinct values in one and two columns, exact multiples of the 1000-value batch, values on more than 4096 rows, several outputs of one writer) is written by all writer paths and probed completely; reopen histories over {open, open-preload, close, probe} are explored breadth-first on file copies. Every row is handed to AddRow in one map that is refilled for the next row and scribbled over before Flush (the shared builder behind C01, C02, C05, C12, C13).',
    note='Membership is observed through a unique id column; trusts the model.'),
  'C07': dict(level='model_checking', engine=E2, ref='§4 C07',
    technique='explicit-state BFS to fixpoint over Put/Get histories of the real LRUCache (state = dump of real internal state + reference-model state), relations R1-R6 checked on every transition',
@@ -61,15 +61,15 @@ claimed = {
    note='Precondition of the property: valid identifiers, >=1 operand per AND/OR.'),
  'C11': dict(level='exploration', engine=E1 + ' + ' + E2, ref='§4 C11',
    technique='bounded-exhaustive enumeration of query texts x argument lists x execution sequences through ReplacePlaceholders and through database/sql (direct Query and Prepare paths)',
-   text='All trees (depth 1/2) over leaves with repeated, out-of-order and gapped placeholders x all argument lists of length 0..4 over 5 values: binding equals a reference substitution and leaves the template unchanged; through database/sql every execution (sequences of length 2/3 on one prepared statement) returns the rows of the literal one-shot query, too few arguments give an error. Plus, on a grpc:// handle served by an in-process query service over the library, every sequence of up to 3 executions of one prepared statement (3 texts x 3 argument lists) in which each execution is either answered or failed by the service.',
+   text='All trees (depth 1/2) over leaves with repeated, out-of-order and gapped placeholders x all argument lists of length 0..4 over 5 values: binding equals a reference substitution and leaves the template unchanged; through database/sql every execution (sequences of length 2/3 on one prepared statement) returns the rows of the literal one-shot query, too few arguments give an error. Plus, on a grpc:// handle served by an in-process query service over the library, every sequence of up to 3 executions of one prepared statement (3 texts x 3 argument lists) in which each execution is either answered or failed by the service. Prepared-statement sequences use group-by lists of 0, 1 and 3 columns, and the harness renames the headers it got from Columns() in place after every execution (the caller owns that slice).',
    note='The literal one-shot query through the same driver is the oracle (as the property states); database/sql itself is trusted.'),
  'C12': dict(level='exploration', engine=E1, ref='§4 C12',
    technique='bounded-exhaustive enumeration of datasets x query texts x DSN option combinations, database/sql rows compared with Index.Execute on a copy of the same file',
-   text='87 datasets (incl. quote-edged values, a column named count, prefix-related values) x 7 option strings (incl. an LRU size above 2^32) x all expressions (depth 1/2) x 20 group-by lists: Columns, ColumnTypes, every row scanned into typed destinations, order, counts and error behaviour must match the library result; two result sets open at the same time on one handle; prepared and direct execution with every ordered pair of argument lists.',
+   text='87 datasets (incl. quote-edged values, a column named count, prefix-related values) x 7 option strings (incl. an LRU size above 2^32) x all expressions (depth 1/2) x 20 group-by lists: Columns, ColumnTypes, every row scanned into typed destinations, order, counts and error behaviour must match the library result; two result sets open at the same time on one handle; prepared and direct execution with every ordered pair of argument lists. The harness renames the headers it got from Columns() in place after reading every result.',
    note='The library result is the oracle (checked by C01/C02); texts come from the formatter (checked by C10).'),
  'C13': dict(level='exploration', engine=E1 + ' + ' + E5, ref='§4 C13',
    technique='bounded-exhaustive enumeration of request batches (length 0..2/3 over 8 queries + incomplete members x 5 id patterns, long batches of 4..12) against real `updog server` processes for 4 files x 4 option combinations; library Execute on a file copy as oracle',
-   text='Every batch is sent over loopback gRPC to the real server binary; order, id rule, counts, groups and all-or-nothing error behaviour are compared with the library; protobuf conversion round trip and grpc:// vs file: data source equality are checked for every query.',
+   text='Every batch is sent over loopback gRPC to the real server binary; order, id rule, counts, groups and all-or-nothing error behaviour are compared with the library; protobuf conversion round trip and grpc:// vs file: data source equality are checked for every query. A sixth index file holds values of 64..300 bytes that share their first 64 / 255 bytes; file 4 is grouped by ["first","name"] and by the single column "first,name" in one batch.',
    note='Loopback TCP; valid UTF-8 index strings only.'),
  'C14': dict(level='fault_enumeration', engine=E1 + ' + ' + E5, ref='§4 C14',
    technique='structural enumeration of decodable request messages (every omission at every position to depth 2, nesting to 4990) in-process under recover and over the wire against the real server with a liveness+correctness probe after every request',
